@@ -34,7 +34,9 @@ type Contract struct {
 	Ensures       []*CExpr
 	LoopInv       map[int][]*CExpr
 	LoopDec       map[int]*CExpr
-	Modifies      []*CExpr // pointer.field expressions
+	LoopStep      map[int][]*CExpr // relation between the head of an iteration and its end (uses snapshots)
+	LoopSnap      map[int][]*Snap  // ghost locals holding the value of an expression at the loop head
+	Modifies      []*CExpr         // pointer.field expressions
 	HasModifies   bool
 	Assumed       bool
 	Pure          bool
@@ -45,17 +47,27 @@ type Contract struct {
 	ParamNames    []string
 	Flags         map[string]string
 	Line          int
-	Fresh         bool // result is a fresh object
-	Function      bool // deterministic, heap-independent: calls are abstracted as fn_<name>_<k>(args)
+	Fresh         bool              // result is a fresh object
+	Function      bool              // deterministic, heap-independent: calls are abstracted as fn_<name>_<k>(args)
 	GhostSet      map[string]*CExpr // ghost updates performed by the callee: name -> new value
+	GhostAssign   map[string]bool   // "ghostassign": the update is ghost code executed by the function at its return (nothing to prove in the body)
 	AtCall        []*AtCall         // assertions at call sites inside this function
+}
+
+// Snap: "loop N snapshot NAME EXPR": NAME is, during one iteration of loop N (inner loops
+// included), the value EXPR had at the head of that iteration.
+type Snap struct {
+	Name string
+	Expr *CExpr
 }
 
 // AtCall: "atcall <callee> <expr>": at every call of callee in this function expr must hold; the
 // call's arguments (receiver first) are a0, a1, ...
 type AtCall struct {
-	Callee string
-	Expr   *CExpr
+	Callee   string
+	Expr     *CExpr
+	NoAssume bool // "finding atcall ...": the clause is a recorded finding (it does not hold), so it is
+	// checked but not assumed for what follows on the path
 }
 
 type Ghost struct {
@@ -191,7 +203,7 @@ func readSexp(s string, i int) (string, int) {
 	return s[i:], len(s)
 }
 
-var clauseRe = regexp.MustCompile(`^(requires|ensures|invariant|decreases)(\[[A-Z0-9, ]+\])?\s+(.*)$`)
+var clauseRe = regexp.MustCompile(`^(requires|ensures|invariant|decreases|step)(\[[A-Z0-9, ]+\])?\s+(.*)$`)
 
 func parseContractFile(path string, extra ...string) (*ContractFile, error) {
 	cf := &ContractFile{ByName: map[string]*Contract{}, Path: path, Scan: map[string]int{}, Lists: map[string][]string{}, Groups: map[string]*Contract{}}
@@ -442,7 +454,31 @@ func parseContractFile(path string, extra ...string) (*ContractFile, error) {
 					return nil, fmt.Errorf("line %d: decreases without loop ordinal", ln)
 				}
 				cur.LoopDec[loopN] = ce
+			case "step":
+				if loopN <= 0 {
+					return nil, fmt.Errorf("line %d: step needs the ordinal of one loop", ln)
+				}
+				if cur.LoopStep == nil {
+					cur.LoopStep = map[int][]*CExpr{}
+				}
+				cur.LoopStep[loopN] = append(cur.LoopStep[loopN], ce)
 			}
+			continue
+		}
+		if loopN > 0 && strings.HasPrefix(body, "snapshot ") {
+			f := strings.Fields(body)
+			if len(f) < 3 {
+				return nil, fmt.Errorf("line %d: loop N snapshot NAME EXPR", ln)
+			}
+			rest := strings.TrimSpace(body[strings.Index(body, f[1])+len(f[1]):])
+			e, err := parseCExpr(rest)
+			if err != nil {
+				return nil, fmt.Errorf("line %d: %v in %q", ln, err, rest)
+			}
+			if cur.LoopSnap == nil {
+				cur.LoopSnap = map[int][]*Snap{}
+			}
+			cur.LoopSnap[loopN] = append(cur.LoopSnap[loopN], &Snap{Name: f[1], Expr: &CExpr{Text: rest, Props: defProps, ast: e, Line: ln}})
 			continue
 		}
 		atProps := defProps
@@ -450,6 +486,17 @@ func parseContractFile(path string, extra ...string) (*ContractFile, error) {
 			// atcall[Cxx,Cyy] CALLEE EXPR: the assertion belongs to these properties only
 			atProps = strings.FieldsFunc(fields[0][len("atcall["):len(fields[0])-1], func(r rune) bool { return r == ',' || r == ' ' })
 			fields[0] = "atcall"
+		}
+		finding := false
+		if fields[0] == "finding" && len(fields) >= 2 && strings.HasPrefix(fields[1], "atcall") {
+			// finding atcall[...] CALLEE EXPR
+			finding = true
+			l = strings.TrimSpace(l[len("finding"):])
+			fields = fields[1:]
+			if strings.HasPrefix(fields[0], "atcall[") && strings.HasSuffix(fields[0], "]") {
+				atProps = strings.FieldsFunc(fields[0][len("atcall["):len(fields[0])-1], func(r rune) bool { return r == ',' || r == ' ' })
+				fields[0] = "atcall"
+			}
 		}
 		switch fields[0] {
 		case "atcall":
@@ -461,7 +508,26 @@ func parseContractFile(path string, extra ...string) (*ContractFile, error) {
 			if err != nil {
 				return nil, fmt.Errorf("line %d: atcall: %v", ln, err)
 			}
-			cur.AtCall = append(cur.AtCall, &AtCall{Callee: fields[1], Expr: &CExpr{Text: rest, ast: e, Line: ln, Props: atProps}})
+			cur.AtCall = append(cur.AtCall, &AtCall{Callee: fields[1], Expr: &CExpr{Text: rest, ast: e, Line: ln, Props: atProps}, NoAssume: finding})
+		case "ghostassign":
+			// ghostassign NAME EXPR: ghost code - as it returns, the function assigns EXPR (over the
+			// final state and the results) to the ghost NAME. Callers see it like a ghostset.
+			if len(fields) < 3 {
+				return nil, fmt.Errorf("line %d: ghostassign NAME EXPR", ln)
+			}
+			rest := strings.TrimSpace(l[strings.Index(l, fields[1])+len(fields[1]):])
+			e, err := parseCExpr(rest)
+			if err != nil {
+				return nil, fmt.Errorf("line %d: ghostassign: %v", ln, err)
+			}
+			if cur.GhostSet == nil {
+				cur.GhostSet = map[string]*CExpr{}
+			}
+			if cur.GhostAssign == nil {
+				cur.GhostAssign = map[string]bool{}
+			}
+			cur.GhostSet[fields[1]] = &CExpr{Text: rest, ast: e, Line: ln, Props: defProps}
+			cur.GhostAssign[fields[1]] = true
 		case "ghostset":
 			// ghostset NAME EXPR: after a call the ghost NAME has value EXPR (old(NAME) = before the call)
 			if len(fields) < 3 {
@@ -677,6 +743,7 @@ type evalEnv struct {
 	oldHeap heapState
 	rets    []Val
 	bound   map[string]cval
+	inQuant bool           // inside a quantifier of the contract expression (terms may mention its variable)
 	names   map[string]Val // extra names (call-site formals)
 	gh      map[string]string
 	oldGh   map[string]string
@@ -782,6 +849,9 @@ func (fx *FnExec) evalC(e ast.Expr, env *evalEnv) (cval, error) {
 
 func (fx *FnExec) evalIdent(name string, env *evalEnv) (cval, error) {
 	if v, ok := env.bound[name]; ok {
+		return v, nil
+	}
+	if v, ok := fx.snaps[name]; ok {
 		return v, nil
 	}
 	switch name {
@@ -1053,6 +1123,20 @@ func (fx *FnExec) nilOf(sort string) string {
 	return "0"
 }
 
+// strExt: in functions that reason about string contents, two strings compared in a contract are
+// equal exactly when they have the same bytes (the instance of extensionality for these two).
+func (fx *FnExec) strExt(a, b cval, env *evalEnv) {
+	if a.Sort != "Str" || b.Sort != "Str" || fx.C == nil || !fx.C.StringContent || env.inQuant || a.S == b.S {
+		return
+	}
+	key := "strext " + a.S + " " + b.S
+	if fx.declared[key] {
+		return
+	}
+	fx.declared[key] = true
+	fx.assumeGlobal("(= " + eq(a.S, b.S) + " (and (= (slen " + a.S + ") (slen " + b.S + ")) (forall ((qk Int)) (=> (and (<= 0 qk) (< qk (slen " + a.S + "))) (= (sat " + a.S + " qk) (sat " + b.S + " qk))))))")
+}
+
 func (fx *FnExec) evalBinary(x *ast.BinaryExpr, env *evalEnv) (cval, error) {
 	a, err := fx.evalC(x.X, env)
 	if err != nil {
@@ -1084,11 +1168,13 @@ func (fx *FnExec) evalBinary(x *ast.BinaryExpr, env *evalEnv) (cval, error) {
 		if a.Sort == "Slice" && b.S == "nil-slice" {
 			return boolr("(= (s.arr " + a.S + ") 0)")
 		}
+		fx.strExt(a, b, env)
 		return boolr(eq(a.S, b.S))
 	case token.NEQ:
 		if a.Sort == "Slice" && b.S == "nil-slice" {
 			return boolr("(distinct (s.arr " + a.S + ") 0)")
 		}
+		fx.strExt(a, b, env)
 		return boolr(not(eq(a.S, b.S)))
 	case token.LSS:
 		return boolr("(< " + a.S + " " + b.S + ")")
@@ -1257,6 +1343,7 @@ func (fx *FnExec) evalCallC(x *ast.CallExpr, env *evalEnv) (cval, error) {
 		}
 		qn := "q_" + v
 		sub.bound[v] = cval{S: qn, Sort: sort, T: gt}
+		sub.inQuant = true
 		body, err := fx.evalC(x.Args[2], &sub)
 		if err != nil {
 			return cval{}, err
@@ -1455,7 +1542,7 @@ func (fx *FnExec) evalCallC(x *ast.CallExpr, env *evalEnv) (cval, error) {
 		return cval{S: ite(c.S, a.S, b.S), Sort: a.Sort, T: a.T}, nil
 	}
 	// spec function
-	if sf, ok := fx.W.Contracts.Specs[fn.Name]; ok {
+	if sf, ok := fx.W.Contracts.Specs[fn.Name]; ok && fn.Name != "substr" { // substr: the builtin below adds its content axiom
 		var args []string
 		for i, a := range x.Args {
 			v, err := fx.evalC(a, env)
@@ -1607,7 +1694,17 @@ func (fx *FnExec) evalCallC(x *ast.CallExpr, env *evalEnv) (cval, error) {
 			as[i] = v.S
 		}
 		fx.declareFun("substr", []string{"Str", "Int", "Int"}, "Str")
-		return cval{S: "(substr " + as[0] + " " + as[1] + " " + as[2] + ")", Sort: "Str", T: types.Typ[types.String]}, nil
+		term := "(substr " + as[0] + " " + as[1] + " " + as[2] + ")"
+		if fx.C != nil && fx.C.StringContent && !env.inQuant {
+			// what s[lo:hi] is, byte by byte (where the slice expression is defined)
+			key := "substr-content " + term
+			if !fx.declared[key] {
+				fx.declared[key] = true
+				inb := "(and (<= 0 " + as[1] + ") (<= " + as[1] + " " + as[2] + ") (<= " + as[2] + " (slen " + as[0] + ")))"
+				fx.assumeGlobal("(=> " + inb + " (and (= (slen " + term + ") (- " + as[2] + " " + as[1] + ")) (forall ((qi Int)) (! (=> (and (<= 0 qi) (< qi (- " + as[2] + " " + as[1] + "))) (= (sat " + term + " qi) (sat " + as[0] + " (+ " + as[1] + " qi)))) :pattern ((sat " + term + " qi))))))")
+			}
+		}
+		return cval{S: term, Sort: "Str", T: types.Typ[types.String]}, nil
 	case "bytesStr": // content of a []byte as a string
 		v, err := fx.evalC(x.Args[0], env)
 		if err != nil {
@@ -1811,6 +1908,18 @@ func mergeContract(dst, grp *Contract) {
 	}
 	for k, v := range grp.LoopInv {
 		dst.LoopInv[k] = append(dst.LoopInv[k], v...)
+	}
+	for k, v := range grp.LoopStep {
+		if dst.LoopStep == nil {
+			dst.LoopStep = map[int][]*CExpr{}
+		}
+		dst.LoopStep[k] = append(dst.LoopStep[k], v...)
+	}
+	for k, v := range grp.LoopSnap {
+		if dst.LoopSnap == nil {
+			dst.LoopSnap = map[int][]*Snap{}
+		}
+		dst.LoopSnap[k] = append(dst.LoopSnap[k], v...)
 	}
 	for k, v := range grp.Nilable {
 		dst.Nilable[k] = v
